@@ -299,7 +299,8 @@ func (m *model) continueSet(st *state, k, v string, r *opRec, cbIdx int, discoun
 
 // Workload.
 
-var keyPool = [][]byte{[]byte("a"), []byte("b"), []byte("ab"), []byte(""), []byte("abc"), nil}
+var keyPool = [][]byte{[]byte("a"), []byte("b"), []byte(strings.Repeat("k", 40)), []byte("ab"), []byte(""),
+	[]byte(strings.Repeat("q", 33)), []byte("abc"), nil}
 
 type runner struct {
 	tp      *kernel.Tape
@@ -317,8 +318,15 @@ type runner struct {
 	sig     uint64
 	nOps    int
 	long    bool // long history: thousands of operations, mostly Set and Del
-	pv      any
-	stack   string
+
+	// cur is, per key, the value buffer given to the latest Set of that key.
+	// When a later Set of the key reports that it replaced a live entry, the
+	// earlier buffer is no longer the cache's and the caller may reuse it: the
+	// harness overwrites it (the cache stores the slices it is given, and
+	// must hand out the latest one).
+	cur   map[string][]byte
+	pv    any
+	stack string
 }
 
 func TestWorker(t *testing.T) {
@@ -362,6 +370,11 @@ func (r *runner) genOp() *opRec {
 				v = append(v, '.')
 			}
 		}
+		if old := r.cur[string(o.key)]; len(old) > 0 && tp.Bool(1, 6) {
+			// The same content again, in a buffer of its own.
+			v = bytes.Clone(old)
+			r.stats.Probe("set-equal-content-again")
+		}
 		o.val = v
 	case c < 14:
 		o.kind = opGet
@@ -382,14 +395,26 @@ func (r *runner) exec(o *opRec) {
 	switch o.kind {
 	case opSet:
 		r.frames = append(r.frames, o)
-		o.ret = r.c.Set(o.key, o.val)
+		// The cache gets a buffer of its own (nil and empty stay what they
+		// are); the record keeps the content for the model and the log.
+		buf := bytes.Clone(o.val)
+		o.ret = r.c.Set(o.key, buf)
 		r.frames = r.frames[:len(r.frames)-1]
+		if old := r.cur[string(o.key)]; o.ret && len(old) > 0 {
+			for i := range old {
+				old[i] = '#'
+			}
+			r.stats.Probe("replaced-buffer-reused-by-caller")
+		}
+		r.cur[string(o.key)] = buf
 		r.logf("Set(%q, %q) = %v (%d callbacks)", o.key, o.val, o.ret, len(o.cbs))
 		if len(o.cbs) > 0 {
 			r.stats.Probe("set-with-eviction")
 		}
 	case opGet:
-		o.got = r.c.Get(o.key)
+		// (A copy: Get hands out the stored slice, which the harness may
+		// overwrite once the entry has been replaced.)
+		o.got = bytes.Clone(r.c.Get(o.key))
 		r.logf("Get(%q) = %q nil=%v", o.key, o.got, o.got == nil)
 	case opDel:
 		r.c.Del(o.key)
@@ -445,7 +470,7 @@ func (r *runner) onDelete(key, val []byte) {
 
 func run(rc *kernel.RunCtx) {
 	tp := rc.Tape
-	r := &runner{tp: tp, stats: rc.Stats, keepLog: rc.KeepLog, sig: 14695981039346656037}
+	r := &runner{tp: tp, stats: rc.Stats, keepLog: rc.KeepLog, sig: 14695981039346656037, cur: map[string][]byte{}}
 
 	conf := cache.Config{}
 	if tp.Bool(3, 4) {
